@@ -272,6 +272,19 @@ def oracle(case):
 					return {'what': '%s gives %r (%s, port %r), URI(text) gives %r (%s, port %r)' % (how, w.tuple, type(w).__name__, w.port, fresh[1], fresh[0].__name__, fresh[2]), 'uri': case[1], 'finding': None}
 		except ImportError:
 			pass
+		# the same URI put together from its components - keywords or a dictionary that leave the empty ones out, the tuple - equals
+		# the parsed one, its text and URI(text), in both directions
+		names = ('scheme', 'username', 'password', 'host', 'port', 'path', 'query_string', 'fragment')
+		t0 = u.tuple
+		kw = {k_: v_ for k_, v_ in zip(names, t0) if v_}
+		for how, mk in (('keywords without the empty components', lambda: URI(**kw)), ('a dictionary without the empty components', lambda: URI(dict(kw))), ('its tuple', lambda: URI(t0))):
+			try:
+				w = mk()
+				ok = (w == u, u == w, w == case[1].encode('utf-8'), w == URI(case[1].encode('utf-8')), w.tuple == t0)
+			except Exception as e:
+				return {'what': 'URI built from %s: %s raised' % (how, exc_name(e)), 'uri': case[1], 'finding': None}
+			if not all(ok):
+				return {'what': 'URI built from %s: equal to the parsed URI %r / reversed %r / to the text %r / to URI(text) %r / same components %r (%r)' % ((how,) + ok + (w.tuple,)), 'uri': case[1], 'finding': None}
 		u.normalize()
 		once = (type(u), u.tuple)
 		u.normalize()
